@@ -23,6 +23,7 @@ RULE = (
     "output_dependencies(+procname), default_str_storage in {32, n}; for the command line all 32 subsets of -l -z -D -w -s plus -c files and "
     "input file names over [A-Za-z0-9_]+. Non-trivial: the toggled option actually changes the output; distinct by sha1 of (program, toggled option, other options)"
 )
+RULE += ' Toggles are also evaluated inside varied surroundings (no standard prefix, no suffix, a per-name size map); string sizes include 1, 2, 256, 1000, 32766; the filter is checked in both directions (it never adds a label).'
 ASSUMPTIONS = [
     "prologue initialisers are recognised structurally: assignment of a zero / empty literal to a scalar, or a FOR nest doing so for every element of one array",
 ]
